@@ -98,6 +98,12 @@ var (
 // VerifFailPageWrite makes the k-th page write from now fail (k >= 1); 0 switches the fault off.
 func VerifFailPageWrite(k int) { verifFailAt = k }
 
+// VerifBreakFile closes the data file under the store: every read (and write) fails until VerifRepairFile.
+func VerifBreakFile(rs *RelationService) {
+	rs.fs.file.Close()
+	verifFailedStore = rs.fs
+}
+
 // VerifRepairFile reopens the data file after an injected write fault; it reports whether a fault had struck.
 func VerifRepairFile() (bool, error) {
 	verifFailAt = 0
